@@ -41,7 +41,7 @@ func GenInProc() *rapid.Generator[Case] {
 		c.WBuf = rapid.SampledFrom([]int{8, 64, 64, 4096, 4 << 20}).Draw(t, "wbuf")
 		c.Comp = rapid.IntRange(0, 3).Draw(t, "comp")
 		c.Crash = rapid.IntRange(0, 24).Draw(t, "crashleg") == 0
-		c.RBuf = rapid.SampledFrom([]int{16, 64, 4096, 4096, 0}).Draw(t, "rbuf")
+		c.RBuf = rapid.SampledFrom([]int{1, 16, 64, 4096, 4096, 0}).Draw(t, "rbuf")
 		n := rapid.IntRange(0, 30).Draw(t, "n")
 		bg := gen.BlobGen(true, true, []int{8, 16, 64}, 200)
 		for i := 0; i < n; i++ {
